@@ -7,7 +7,7 @@
 From Coq Require Import ZArith List Bool Lia ZifyBool.
 From RecordUpdate Require Import RecordSet.
 From Common Require Import Res.
-From Core Require Import World Hoare Model Step Reach Proofs_C03b Proofs_C03f Proofs_C02b Proofs_C10b Proofs_C02c Proofs_C03c.
+From Core Require Import World Hoare Model Step Reach Proofs_C03b Proofs_C03f Proofs_C02b Proofs_C10b Proofs_C02c Proofs_C03c Proofs_C02d.
 Import ListNotations RecordSetNotations.
 Open Scope Z_scope.
 
@@ -34,7 +34,8 @@ Inductive cmd :=
 | CSeek (p : Z)
 | CEot (x : tlt)             (* the natural end of the track; x: the entry get_eot_tlid announces *)
 | CStop
-| CPlay0.                    (* play() while stopped: the current entry starts again *)
+| CPlay0                     (* play() while stopped: the current entry starts again *)
+| CEdit (o : op).            (* add / move / shuffle / remove that leaves the playing entry in place *)
 
 Definition D := Deliver.
 Definition ops_of (st : ps) (c : cmd) : list op :=
@@ -48,6 +49,7 @@ Definition ops_of (st : ps) (c : cmd) : list op :=
   | CEot _ => [AboutToFinish; D; D]
   | CStop => [Stop; D; D]
   | CPlay0 => [Play None; D; D; D; D]
+  | CEdit o => [o]
   end.
 
 Definition target (c : tlt) (k : cmd) : tlt :=
@@ -55,7 +57,7 @@ Definition target (c : tlt) (k : cmd) : tlt :=
 
 (* what the client has to respect: the command fits the state, next/previous have a successor /
    predecessor (the announced one), the tlid exists, the seek stays within the track *)
-Definition ok (w : world) (c : tlt) (k : cmd) : Prop :=
+Definition ok (f : nat) (w : world) (c : tlt) (k : cmd) : Prop :=
   match k with
   | CPause => pstate w = Playing
   | CResume => pstate w = Paused
@@ -66,6 +68,11 @@ Definition ok (w : world) (c : tlt) (k : cmd) : Prop :=
   | CEot x => pstate w = Playing /\ announces_eot shuf w c x /\ In x (World.tl w)
   | CStop => pstate w <> Stopped
   | CPlay0 => pstate w = Stopped
+  | CEdit o =>
+      is_edit o = true /\
+      let w1 := snd (run_op shuf (S f) o w) in
+      mem_tlt c (World.tl w1) = true
+      /\ (forall y, In y (World.tl w1) -> kind_of w (trk y) = Playable /\ exists len, len_of w (trk y) = Some len)
   end.
 
 Lemma running_accepts w c x : running w c -> In x (World.tl w) -> accepts w x.
@@ -164,14 +171,77 @@ Proof.
   reflexivity.
 Qed.
 
+(* ---- tracklist edits *)
+Lemma mem_tlt_in c l : mem_tlt c l = true -> In c l.
+Proof.
+  unfold mem_tlt. intros H. apply existsb_exists in H. destruct H as (y & Hy & E).
+  unfold tlt_eqb in E. apply andb_true_iff in E. destruct E as [E1 E2].
+  destruct c as [ci ct], y as [yi yt]. cbn in E1, E2.
+  assert (ci = yi) by lia. assert (ct = yt) by lia. subst. exact Hy.
+Qed.
+
+Lemma running_pb w w1 c :
+  running w c -> pb_same w w1 -> In c (World.tl w1) ->
+  (forall y, In y (World.tl w1) -> kind_of w (trk y) = Playable /\ exists len, len_of w (trk y) = Some len) ->
+  running w1 c.
+Proof.
+  intros R P Hin Hall. destruct P. destruct (rn_settled w c R) as [Hq Hp Hpp Hsa Hsp Hpf Hc Hb Ha].
+  constructor.
+  - constructor; try congruence.
+    + unfold kind_of in *. rewrite pb_kinds. exact Hb.
+    + rewrite pb_pstate, pb_uri, pb_astate. exact Ha.
+  - rewrite pb_pstate. exact (rn_state w c R).
+  - rewrite pb_consume. exact (rn_consume w c R).
+  - rewrite pb_fresh. exact (rn_fresh w c R).
+  - rewrite pb_atf. exact (rn_atf w c R).
+  - rewrite pb_script. exact (rn_script w c R).
+  - exact Hin.
+  - intros y Hy. unfold kind_of, len_of. rewrite pb_kinds, pb_lens. exact (Hall y Hy).
+Qed.
+
+Lemma running_gtp w c : running w c -> running (fx_gtp w) c.
+Proof.
+  intros R. destruct (rn_settled w c R) as [Hq Hp Hpp Hsa Hsp Hpf Hc Hb Ha].
+  constructor.
+  - constructor; assumption.
+  - exact (rn_state w c R).
+  - exact (rn_consume w c R).
+  - exact (rn_fresh w c R).
+  - exact (rn_atf w c R).
+  - exact (rn_script w c R).
+  - exact (rn_in w c R).
+  - exact (rn_play w c R).
+Qed.
+
+Lemma edit_keeps_running f o c w :
+  running w c -> is_edit o = true ->
+  mem_tlt c (World.tl (snd (run_op shuf (S f) o w))) = true ->
+  (forall y, In y (World.tl (snd (run_op shuf (S f) o w))) ->
+             kind_of w (trk y) = Playable /\ exists len, len_of w (trk y) = Some len) ->
+  running (run_world shuf (S f) w [o]) c.
+Proof.
+  intros R He Hm Hall. destruct (run_op shuf (S f) o w) as [r w1] eqn:E. cbn [snd] in *.
+  destruct (rn_settled w c R) as [Hq Hp Hpp Hsa Hsp Hpf Hc Hb Ha].
+  pose proof (edit_keeps_playback shuf (S f) o c w r w1 He Hc E Hm) as P.
+  assert (R1 : running w1 c) by (apply (running_pb w w1 c R P); [apply mem_tlt_in; exact Hm|exact Hall]).
+  unfold run_world. cbn [fold_left]. unfold stepw, step. rewrite E.
+  assert (Ho : match o with Load _ => False | _ => True end) by (destruct o; try discriminate; exact I).
+  destruct r as [v|e|].
+  - destruct (rn_settled w1 c R1) as [_ _ Hpp1 _ _ _ Hc1 Hb1 _].
+    rewrite (gtp_run w1 c Hpp1 Hc1 Hb1). cbn [fst]. destruct o; try discriminate; apply running_gtp; exact R1.
+  - destruct (rn_settled w1 c R1) as [_ _ Hpp1 _ _ _ Hc1 Hb1 _].
+    rewrite (gtp_run w1 c Hpp1 Hc1 Hb1). cbn [fst]. destruct o; try discriminate; apply running_gtp; exact R1.
+  - cbn [fst]. destruct o; try discriminate; exact R1.
+Qed.
+
 (* one command keeps the player running and settled *)
 Theorem command_keeps_running f k c w :
-  running w c -> ok w c k ->
+  running w c -> ok f w c k ->
   running (run_world shuf (S f) w (ops_of (pstate w) k)) (target c k).
 Proof.
   intros R Hok. pose proof (rn_settled w c R) as Hs. pose proof (rn_consume w c R) as Hco.
   pose proof (rn_fresh w c R) as Hfr.
-  destruct k as [| |x|x|i x|p|x| |]; cbn [ok ops_of target] in *.
+  destruct k as [| |x|x|i x|p|x| | |o]; cbn [ok ops_of target] in *.
   - (* pause *)
     destruct (pause_agreement_full shuf (S f) c w Hs Hok Hfr) as (A & B & _ & C & _).
     apply (running_next w c c _ Paused R (rn_in w c R) A B C). right; left; reflexivity.
@@ -220,6 +290,8 @@ Proof.
     pose proof (running_accepts w c c R (rn_in w c R)) as Hacc.
     destruct (play_stopped_agreement_full f c w Hs Hok Hco Hacc) as (A & B & C).
     apply (running_next w c c _ Playing R (rn_in w c R) A B C). left; reflexivity.
+  - (* an edit that leaves the playing entry in place *)
+    destruct Hok as (He & Hm & Hall). apply edit_keeps_running; assumption.
 Qed.
 
 (* schedules *)
@@ -232,7 +304,7 @@ Fixpoint run_cmds (f : nat) (w : world) (c : tlt) (ks : list cmd) : world * tlt 
 Fixpoint all_ok (f : nat) (w : world) (c : tlt) (ks : list cmd) : Prop :=
   match ks with
   | [] => True
-  | k :: rest => ok w c k /\ all_ok f (run_world shuf (S f) w (ops_of (pstate w) k)) (target c k) rest
+  | k :: rest => ok f w c k /\ all_ok f (run_world shuf (S f) w (ops_of (pstate w) k)) (target c k) rest
   end.
 
 Theorem settled_schedule_agreement f : forall ks w c,
@@ -299,4 +371,20 @@ Proof.
       apply (eot_seq shuf_concrete [mkTlt 1 0] (mkTlt 2 1) (mkTlt 3 2) [] w); [vm_compute; reflexivity| |vm_compute; auto]
     end.
     vm_compute. repeat constructor; cbn; intuition discriminate.
+Qed.
+
+Example schedule_example_edit :
+  all_ok shuf_concrete 10 w_example (mkTlt 1 0)
+    [CEdit (Add [2; 1] (Some 1)); CPause; CEdit (Remove (mkCrit (Some [2]) None)); CResume].
+Proof.
+  cbn [all_ok ok target ops_of].
+  repeat match goal with
+         | |- _ /\ _ => split
+         | |- True => exact I
+         | |- forall y, In y _ -> _ =>
+             let y := fresh "y" in let Hy := fresh "Hy" in
+             intros y Hy; vm_compute in Hy;
+             repeat (destruct Hy as [<-|Hy]; [vm_compute; eauto|]); contradiction
+         | |- _ = _ => vm_compute; reflexivity
+         end.
 Qed.
